@@ -548,6 +548,168 @@ theorem effective_text_rows {x : Survey} (hx : ((flats x).map (·.xpath)).Nodup)
     have hl : f.d.guidance = .dict (pairsOf M) := by rw [hg, hv]; rfl
     exact value_guidance hx hf hvis hl (functional_pairsOf M) hmem
 
+/-! ### media and bind-message columns from the sheet (C08 `group_column_reading`) -/
+
+theorem readLang_langsOf {dl : Str} {v : V} {l t : Str} (h : readLang dl v l = some t) :
+    (l, t) ∈ langsOf dl (txtOfV v) ∧ Functional (langsOf dl (txtOfV v)) := by
+  cases v with
+  | none => simp [readLang] at h
+  | str u =>
+    simp only [readLang] at h
+    split at h
+    · next hl => cases h; subst hl; exact ⟨by simp [txtOfV, langsOf], by
+        intro a ha b hb _
+        simp only [txtOfV, langsOf, List.mem_singleton] at ha hb
+        rw [ha, hb]⟩
+    · cases h
+  | dict m =>
+    have hg : m.get l = .str t := by
+      simp only [readLang] at h
+      split at h
+      · next t' ht' => cases h; exact ht'
+      · cases h
+    refine ⟨?_, functional_pairsOf m⟩
+    show (l, t) ∈ pairsOf m
+    exact List.mem_map.mpr ⟨l, mem_keys_of_get hg, by rw [hg]; rfl⟩
+
+theorem mem_keys_of_get_ne {m : Kvs} {k : Str} (h : m.get k ≠ .none) : k ∈ m.keys := by
+  rw [← Kvs.has_iff_mem_keys]
+  cases hh : m.has k with
+  | true => rfl
+  | false => exact absurd (Kvs.get_of_not_has m k hh) h
+
+/-- what C08 says about sub-column `g::k` of a row: the group column is a dict with unique keys, `k` is one of them,
+and its value reads `t` for language `l` -/
+theorem group_slot_of_row {dl : Str} {hk : List (Str × List Str)} {row : List (Str × Str)} {out : Kvs} {g k : Str}
+    (hrow : RowOkG dl hk row) (hg : g ∈ groupCols) (hout : processRow dl hk row = .ok out) {l t : Str}
+    (hspec : specRead dl (subCells hk g k row) l = some t) :
+    ∃ M, out.get g = .dict M ∧ M.keys.Nodup ∧ k ∈ M.keys ∧
+      (l, t) ∈ langsOf dl (txtOfV (M.get k)) ∧ Functional (langsOf dl (txtOfV (M.get k))) := by
+  obtain ⟨out', hout', _, hgrp⟩ := processRow_good hrow
+  have hoo : out' = out := by rw [hout] at hout'; exact (Except.ok.inj hout').symm
+  subst hoo
+  obtain ⟨hinv, _⟩ := hgrp g hg
+  obtain ⟨out2, hout2, hget⟩ := row_grouping dl hk row .nil hrow.text.headers hrow.text.noClash
+  have hoo2 : out2 = out' := by
+    have : processRow dl hk row = .ok out2 := hout2
+    rw [hout] at this; exact (Except.ok.inj this).symm
+  subst hoo2
+  have hread := group_column_reading dl hk g k row (hrow.groupShape g hg)
+    (subCells_texts hk g k row hrow.text.nonEmpty) (hrow.groupDistinct g hg k) l
+  have hcol : out2.get g = colFold dl hk g .none row := by rw [hget]; rfl
+  rw [← hcol, hspec] at hread
+  cases hv : out2.get g with
+  | none => rw [hv] at hread; simp [getK, readLang] at hread
+  | str s => rw [hv] at hinv; exact absurd hinv (by simp [GroupInv])
+  | dict M =>
+    rw [hv] at hread hinv
+    simp only [getK] at hread
+    obtain ⟨h1, h2⟩ := readLang_langsOf hread
+    have hne : M.get k ≠ .none := by
+      intro e; rw [e] at hread; simp [readLang] at hread
+    exact ⟨M, rfl, hinv.1, mem_keys_of_get_ne hne, h1, h2⟩
+
+theorem lookup_map_filter (ks : List Str) (p : Str → Bool) (g : Str → Txt) (k : Str) (hk : k ∈ ks) (hp : p k = true) :
+    lookup k ((ks.filter p).map fun a => (a, g a)) = some (g k) := by
+  induction ks with
+  | nil => cases hk
+  | cons a rest ih =>
+    by_cases hpa : p a = true
+    · simp only [List.filter_cons, hpa, if_true, List.map_cons, lookup]
+      by_cases hka : k = a
+      · simp [hka]
+      · simp only [hka, if_false]
+        exact ih (by rcases List.mem_cons.mp hk with h | h; exact absurd h hka; exact h)
+    · simp only [List.filter_cons, hpa]
+      have hka : k ≠ a := by intro e; rw [e] at hp; exact hpa hp
+      exact ih (by rcases List.mem_cons.mp hk with h | h; exact absurd h hka; exact h)
+
+/-- **Effective media and message texts from the sheets** (C08 `group_column_reading` ∘ C07): for an element `f` built
+from the grouped row of `row` — if C08's reading of the cells of `media::<k>[::language]` gives `t` for language `l`,
+the final table holds `t` for `l` under `f`'s label id with content type `k`; if the cells of a bind-message column
+`bind::<key>::language` (a translated message: the value is a dict) read `t` for `l`, the table holds `t` under
+`f`'s message id. -/
+theorem effective_group_rows {x : Survey} (hx : ((flats x).map (·.xpath)).Nodup) {f : Flat} (hf : f ∈ flats x)
+    {hk : List (Str × List Str)} {kind : Kind} {n : Str} {row : List (Str × Str)} {out : Kvs}
+    (hd : f.d = rowElemK kind n out) (hrow : RowOkG x.defaultLanguage hk row)
+    (hout : processRow x.defaultLanguage hk row = .ok out) {l t : Str} :
+    (∀ k, k ≠ "long".toList → specRead x.defaultLanguage (subCells hk "media".toList k row) l = some t →
+      valueAt (table x) l (path f.xpath "label") k = some t) ∧
+    (∀ (key : String), key ∈ ["jr:constraintMsg", "jr:requiredMsg", "jr:noAppErrorString"] →
+      (∀ B, out.get "bind".toList = .dict B → ∃ Mk, B.get key.toList = .dict Mk) →
+      specRead x.defaultLanguage (subCells hk "bind".toList key.toList row) l = some t →
+      valueAt (table x) l (path f.xpath key) "long".toList = some t) := by
+  have hvis : visited f = true := by rw [visited, hd]; cases kind <;> rfl
+  constructor
+  · intro k hkl hspec
+    obtain ⟨M, hv, hnd, hkm, hlt, hfun⟩ := group_slot_of_row hrow (by simp [groupCols]) hout hspec
+    have hm : f.d.media = some (M.keys.map fun a => (a, txtOfV (M.get a))) := by
+      rw [hd]; show mediaOfV (out.get "media".toList) = _; rw [hv]; rfl
+    refine value_media hx hf hvis hm ?_ (List.mem_map.mpr ⟨k, hkm, rfl⟩) hkl hfun hlt
+    simpa [List.map_map, Function.comp_def] using hnd
+  · intro key hkey hdict hspec
+    obtain ⟨B, hv, _, hkb, hlt, hfun⟩ := group_slot_of_row hrow (g := "bind".toList) (by simp [groupCols]) hout hspec
+    obtain ⟨Mk, hMk⟩ := hdict B hv
+    have hmsgkey : msgKeys.contains key.toList = true := by
+      simp only [List.mem_cons, List.mem_nil_iff, or_false] at hkey
+      rcases hkey with rfl | rfl | rfl <;> decide
+    have hm : msgOf f.d key = txtOfV (B.get key.toList) := by
+      rw [hd]
+      show (lookup key.toList (msgsOfV (out.get "bind".toList))).getD .none = _
+      rw [hv]
+      simp only [msgsOfV]
+      rw [lookup_map_filter B.keys (fun k => msgKeys.contains k) (fun a => txtOfV (B.get a)) key.toList hkb hmsgkey]
+      rfl
+    rw [hMk] at hm hlt hfun
+    exact value_msg hx hf hvis hkey (pairs := pairsOf Mk) hm (functional_pairsOf Mk) hlt
+
+/-- **Effective choice label from the choices sheet**: for the `i`-th row `row` of list `name` (grouped row `o`), if the
+label column is translated and C08's reading of its cells gives `t` for language `l`, the final table holds `t` for `l`
+under `name-i`. -/
+theorem effective_choice_rows {dl : Str} {trees : List RowTree} {ls : List (Str × List Kvs)}
+    (hn : (ls.map (·.1)).Nodup) {name : Str} {outs : List Kvs} (hl : (name, outs) ∈ ls) {i : Nat} {o : Kvs}
+    (hi : outs[i]? = some o) (hreq : requiresItext (listOfG name outs) = true)
+    {hk : List (Str × List Str)} {row : List (Str × Str)} (hrow : RowOkG dl hk row)
+    (hout : processRow dl hk row = .ok o) {M : Kvs} (hv : o.get "label".toList = .dict M)
+    (hlong : ∀ M', o.get "media".toList = .dict M' → "long".toList ∉ M'.keys) {l t : Str}
+    (hspec : specRead dl (colCells hk "label".toList row) l = some t) :
+    valueAt (table (treeSurvey dl trees ls)) l (choiceId name i) "long".toList = some t := by
+  have hmem := slot_of_row hrow.text (by simp [textCols]) hout hv hspec
+  have hnames : ((treeSurvey dl trees ls).lists.map (·.name)).Nodup := by
+    simpa [treeSurvey, listOfG, List.map_map, Function.comp_def] using hn
+  have hlm : listOfG name outs ∈ (treeSurvey dl trees ls).lists :=
+    List.mem_map.mpr ⟨(name, outs), hl, rfl⟩
+  have hopt : (listOfG name outs).options[i]? = some (optOf o) := by
+    simp [listOfG, List.getElem?_map, hi]
+  have hlab : (optOf o).label = .dict (pairsOf M) := by
+    show txtOfV (o.get "label".toList) = _; rw [hv]; rfl
+  refine value_choice_label hnames hlm hreq hopt hlab (functional_pairsOf M) ?_ hmem
+  intro m hm
+  have hm' : mediaOfV (o.get "media".toList) = some m := hm
+  cases hmv : o.get "media".toList with
+  | none => rw [hmv] at hm'; cases hm'
+  | str s => rw [hmv] at hm'; cases hm'
+  | dict M' =>
+    rw [hmv] at hm'
+    simp only [mediaOfV, Option.some.injEq] at hm'
+    subst hm'
+    simpa [List.map_map, Function.comp_def] using hlong M' hmv
+
+/-- non-vacuity of `effective_group_rows` and `effective_choice_rows` on the same example: the group's French image,
+the English constraint message of `a`, the French label of the first choice of `yn` -/
+example :
+    (match groupTrees "default".toList hkG treesG, groupLists "default".toList hkG listsG with
+     | .ok gt, .ok gl =>
+       let x := treeSurvey "default".toList gt gl
+       specRead "default".toList (subCells hkG "media".toList "image".toList
+         [("label::fr".toList, "Gf".toList), ("image::fr".toList, "g.png".toList)]) "fr".toList == some "g.png".toList &&
+       valueAt (table x) "fr".toList (path "/data/g".toList "label") "image".toList == some "g.png".toList &&
+       valueAt (table x) "en".toList (path "/data/g/a".toList "jr:constraintMsg") "long".toList == some "positive".toList &&
+       valueAt (table x) "fr".toList (choiceId "yn".toList 0) "long".toList == some "Oui".toList &&
+       valueAt (table x) "fr".toList (choiceId "yn".toList 1) "long".toList == some dashStr &&
+       decide ((gl.map (·.1)).Nodup) && gl.all (fun l => requiresItext (listOfG l.1 l.2))
+     | _, _ => false) = true := by decide +kernel
+
 /-- non-vacuity of `effective_text_rows` on the nested example of `C07Sheets` (question `a` inside group `g`, with
 media and bind-message columns around): xpaths are distinct, the row of `a` is `RowOkG`, its label and hint columns
 are dicts, no media column is called `long`; the spec reads `Qfr` / `Q` / `h` and the final table holds exactly that -/
